@@ -493,7 +493,7 @@ func TestC14Cold(t *testing.T) {
 	}
 }
 
-var coldSeq int
+var coldSeq, coldInconclusive int
 
 // checkCold runs the workload in fresh child processes (this very test binary).
 func checkCold(w Workload) error {
@@ -517,7 +517,12 @@ func checkCold(w Workload) error {
 		out, err := cmd.CombinedOutput()
 		if err != nil {
 			txt := string(out)
-			if strings.Contains(txt, "HARNESS-ERROR") {
+			// only a verdict of the child counts: a property mismatch, a race report or a panic in the
+			// code under test. A child that could not be started, was killed, or hit a harness error
+			// says nothing about the property.
+			if _, exited := err.(*exec.ExitError); !exited || strings.Contains(txt, "HARNESS-ERROR") ||
+				!(strings.Contains(txt, "COLD-VIOLATION") || strings.Contains(txt, "DATA RACE") || strings.Contains(txt, "panic:")) {
+				coldInconclusive++
 				continue
 			}
 			if len(txt) > 1500 {
@@ -689,7 +694,7 @@ func drawHot(rt *rapid.T, kind string, ver int, procs int, itersScale int) HotCa
 }
 
 func TestC14(t *testing.T) {
-	h := start(t, "C14", "four generators: (a) a probe call (any exported function, generated arguments and receiver state) evaluated before and after an unrelated generated history that dirties shared state (14-part and over-long v2 vectors, failing parses, many Vector() calls) - results must be identical and parse results agree with the reference parser; (b,c) Vector() strings kept with a clone across further calls and two GC cycles, copies and repeated parses mutated independently; (d) workloads of 2-24 goroutines x up to 40 calls x up to 6 rounds on own objects and shared read-only objects, compared call by call with the sequential execution at GOMAXPROCS 1, 2, 4 and 16, the whole binary built with -race (a race report fails the check); non-trivial = a workload in which at least two goroutines run the v2.0 parser (the pool) or Vector() concurrently, or a probe/history pair whose history contains a v2.0 parse; distinct by case")
+	h := start(t, "C14", "six generators: (a) a probe call (any exported function, generated arguments and receiver state) evaluated before and after an unrelated generated history that dirties shared state (14-part and over-long v2 vectors, failing parses, many Vector() calls) - results must be identical and parse results agree with the reference parser; (b,c) Vector() strings kept with a clone across further calls and two GC cycles, copies and repeated parses mutated independently; (d) workloads of 2-24 goroutines x up to 40 calls x up to 6 rounds on own objects and shared read-only objects, compared call by call with the sequential execution at GOMAXPROCS 1, 2, 4 and 16, (e) hot loops: for every (function, version) pair one pure function hammered by 2-16 goroutines for up to 24 million calls per case against precomputed results; (f) cold starts: for every (function, version) pair fresh child processes whose first calls are made concurrently by 16-48 goroutines and compared with the same calls made afterwards; the whole binary built with -race (a race report fails the check); non-trivial = a workload in which at least two goroutines run the v2.0 parser (the pool) or Vector() concurrently, or a probe/history pair whose history contains a v2.0 parse; distinct by case")
 	h.R.Assume("the Go scheduler is not controlled: interleavings are sampled (preemption, four GOMAXPROCS values); the race detector generalises from the observed runs to unsynchronised access pairs")
 	n := env.Scale(6000, 20000)
 	if env.Shards > 1 {
@@ -880,5 +885,11 @@ func TestC14(t *testing.T) {
 			}
 			return w
 		}, checkCold)
+	}
+	if coldInconclusive > 0 && !h.replaying() {
+		h.R.Count("cold-start children that could not run to a verdict (ignored)", int64(coldInconclusive))
+		if coldInconclusive > 10 {
+			h.R.Inconclusive("%d cold-start child processes could not run to a verdict", coldInconclusive)
+		}
 	}
 }
